@@ -324,7 +324,7 @@ Qed.
 
 (* ---------- the dispatcher ---------- *)
 Lemma in_frag_not_hdr b : in_frag b -> hdr_block b = false.
-Proof. destruct b as [n a l|t l]; [|reflexivity]. cbn [in_frag hdr_block]. intros [-> | [-> | [-> | [-> | [-> | ->]]]]]; reflexivity. Qed.
+Proof. destruct b as [n a l|t l]; [|reflexivity]. cbn [in_frag hdr_block]. intros [-> | [-> | [-> | [-> | [-> | [-> | [-> | ->]]]]]]]; reflexivity. Qed.
 Lemma Q_same p N rest s s' : KS s' = KS s -> P (KS s) p s' -> Q p N rest s -> Q p N rest s'.
 Proof. intros Hk HP' (_ & Hok & Hcnt). unfold KS in Hk. injection Hk as Ht Hl. split; [unfold KS; rewrite Ht, Hl; exact HP'|]. rewrite Hl, Ht. split; assumption. Qed.
 
@@ -458,6 +458,9 @@ nested
 new paragraph
 .Sm strong <t> .
 .Ed
+said so, see
+.Lk http://example.org/a?b=c&d ""the <site>"" .
+.Lk http://example.org/x
 .Ch
 .Tc
 .Tc -summary -title Contents -nonum
@@ -481,6 +484,9 @@ Example headers_example :
 new paragraph
 <em>strong &lt;t&gt;</em>.</p>
 </div>
+<p>said so, see
+<a href=""http://example.org/a?b=c&amp;d"">the &lt;site&gt;</a>.
+<a href=""http://example.org/x"">http://example.org/x</a></p>
 <div class=""toc"">
   <ul>
     <li><a href=""#s1"">1. First &lt;chapter&gt;</a>
@@ -503,4 +509,4 @@ new paragraph
 Proof. split; [|vm_compute; split; reflexivity].
   vm_compute.
   repeat (apply Forall_cons; [first [left; first [exact I | left; reflexivity | right; left; reflexivity | right; right; left; reflexivity | right; right; right; left; reflexivity
-    | right; right; right; right; left; reflexivity | right; right; right; right; right; reflexivity] | right; left; eexists _, _, _; split; reflexivity | right; right; eexists _, _; split; reflexivity]|]). apply Forall_nil. Qed.
+    | right; right; right; right; left; reflexivity | right; right; right; right; right; left; reflexivity | right; right; right; right; right; right; left; reflexivity | right; right; right; right; right; right; right; reflexivity] | right; left; eexists _, _, _; split; reflexivity | right; right; eexists _, _; split; reflexivity]|]). apply Forall_nil. Qed.
